@@ -335,7 +335,7 @@ func limitSleepShape(c *Ctx, lr *limitRoles, rule string, strict bool) {
 	}
 	sl := lr.sleeps[0]
 	key := p.FnKey(sl.Parent()) + "#sleep"
-	arg := p.Sym(sl.Call.Args[0]).StripConv()
+	arg := p.SymX(sl.Call.Args[0]).StripConv() // (the amount may be computed by an expression helper)
 	var problems []string
 	// resolve a parameter through its (single) call site
 	resolve := func(s *Sym) []*Sym {
